@@ -466,7 +466,7 @@ def roi_shape(roi: NdROI) -> Tuple[int, ...]:
             )
         if s.start is None:
             return _out
-        return _out - s.start
+        return max(0, _out - s.start)
 
     if not isinstance(roi, tuple):
         roi = (roi,)
